@@ -169,6 +169,10 @@ def execute(scn, seed, header=None, ops=None, known=frozenset(), avoid=frozenset
     try:
         if header is None:
             header = scn.header(seed, avoid)
+            if os.environ.get("CINCOSIM_TIER") == "thorough" and stream(seed, "tier").random() < 0.35:
+                # deeper bound in the thorough tier: histories up to three times as long (recorded in the header, so
+                # a replay file stays self-contained)
+                header["max_ops"] = int(header.get("max_ops", scn.max_ops) * stream(seed, "tier2").choice([2, 3]))
         rec.log("header", json.dumps(header, sort_keys=True))
         world.begin_step(-1)
         state = scn.start(header, world, rec)
